@@ -65,12 +65,15 @@ type scenario struct {
 	// slowOld: once a migration has fired, the node that owns key 0 receives the requests of the connection that carried
 	// key 0's first command a few milliseconds late (a congested connection); any other connection to it is served at once
 	slowOld bool
+	// slowNode >= 0: this node receives every request a few milliseconds late (a node that is busy): what one node group of a
+	// batch is still doing when another group has already failed
+	slowNode int
 }
 
 // coldMoveScenario: pipelined replay, a hot key whose slot never moves and a cold key on another node whose slot is handed over
 // early: the MOVED answer makes the client refresh its slot map while batches of the hot key are in flight on a slow connection
 func coldMoveScenario(r *hx.Rng, id int) *scenario {
-	sc := &scenario{id: id, mode: "pipeline", start: int64(100 + r.Intn(900)), batch: 1, slowOld: true}
+	sc := &scenario{id: id, mode: "pipeline", start: int64(100 + r.Intn(900)), batch: 1, slowOld: true, slowNode: -1}
 	hot := []byte(fmt.Sprintf("{h%d}hot", r.Intn(40)))
 	cold := []byte(fmt.Sprintf("{c%d}cold", r.Intn(40)))
 	for fakeredis.HashSlot(cold)*3/16384 == fakeredis.HashSlot(hot)*3/16384 {
@@ -96,7 +99,7 @@ func coldMoveScenario(r *hx.Rng, id int) *scenario {
 
 // hotScenario: one hot key, single-command batches, one instant hand-over early in the run
 func hotScenario(r *hx.Rng, id int) *scenario {
-	sc := &scenario{id: id, mode: []string{"pipeline", "batch"}[r.Intn(2)], start: int64(100 + r.Intn(900)), batch: 1 + r.Intn(2)}
+	sc := &scenario{id: id, mode: []string{"pipeline", "batch"}[r.Intn(2)], start: int64(100 + r.Intn(900)), batch: 1 + r.Intn(2), slowNode: -1}
 	sc.keys = [][]byte{[]byte(fmt.Sprintf("{h%d}hot", r.Intn(40))), []byte(fmt.Sprintf("{c%d}cold", r.Intn(40)))}
 	n := 10 + r.Intn(8)
 	for i := 0; i < n; i++ {
@@ -117,7 +120,10 @@ func hotScenario(r *hx.Rng, id int) *scenario {
 }
 
 func genScenario(r *hx.Rng, id int, maxCmds int) *scenario {
-	sc := &scenario{id: id, mode: []string{"batch", "pipeline", "txn", "txnpipe"}[r.Intn(4)], start: int64(100 + r.Intn(900)), batch: 1 + r.Intn(4)}
+	sc := &scenario{id: id, mode: []string{"batch", "pipeline", "txn", "txnpipe"}[r.Intn(4)], start: int64(100 + r.Intn(900)), batch: 1 + r.Intn(4), slowNode: -1}
+	if r.Chance(30) {
+		sc.slowNode = r.Intn(3)
+	}
 	nk := 2 + r.Intn(3)
 	txnMode := sc.mode == "txn" || sc.mode == "txnpipe"
 	pair := r.Chance(40) // the first two keys share a hash tag: multi-key commands on them are legal
@@ -265,6 +271,16 @@ func runScenario(sc *scenario, tr *hx.Trace) int {
 			}
 			migLog = append(migLog, map[string]interface{}{"ev": "Mig", "kind": st.kind, "k": st.key + 1, "after": int(c.ESeq.Load())})
 			fired++
+		}
+	}
+	if sc.slowNode >= 0 && sc.slowNode < len(cs.Nodes) {
+		cs.Nodes[sc.slowNode].Gate = func(connID int, name string, args [][]byte) <-chan struct{} {
+			if name != "rpush" && name != "del" {
+				return nil
+			}
+			ch := make(chan struct{})
+			time.AfterFunc(4*time.Millisecond, func() { close(ch) })
+			return ch
 		}
 	}
 	if sc.slowOld {
